@@ -2392,14 +2392,16 @@ class NameCheckVisitor(node_visitor.ReplacingNodeVisitor):
         self, scope: FunctionScope, enclosing_statement: Optional[ast.stmt] = None
     ) -> None:
         """Shows errors for any unused variables in the function."""
-        all_def_nodes = set(
+        all_def_nodes = dict.fromkeys(
             chain.from_iterable(scope.name_to_all_definition_nodes.values())
         )
         all_used_def_nodes = set(
             chain.from_iterable(scope.usage_to_definition_nodes.values())
         )
-        all_unused_nodes = all_def_nodes - all_used_def_nodes
-        for unused in all_unused_nodes:
+        all_unused_nodes = all_def_nodes.keys() - all_used_def_nodes
+        for unused in all_def_nodes:
+            if unused not in all_unused_nodes:
+                continue
             # Ignore names not defined through a Name node (e.g., function arguments)
             if not isinstance(unused, ast.Name) or not self._is_write_ctx(unused.ctx):
                 continue
